@@ -1,4 +1,5 @@
 import TF.Proofs.MmrIndex
+import TF.Proofs.MmrTree
 import TF.Proofs.MmrBounded
 /-!
 # C16 — MMR index arithmetic matches the explicit forest of perfect trees
@@ -19,7 +20,7 @@ Notation: `popCount` = number of set bits, `trailingOnes` = number of trailing o
 highest set bit, `bitsBelow h n` = positions of the set bits of `n` below `h`, highest first.
 -/
 namespace TF.C16
-open TF TF.Gen TF.Mmr TF.Spec.Mmr
+open TF TF.Gen TF.Mmr TF.Spec.Mmr TF.Model.Mmr
 
 /-- `num_leafs_to_num_nodes n = 2n − popcount n` for every leaf count below `2^63`, without overflow. -/
 theorem num_leafs_to_num_nodes_exact (n : Nat) (h : n < 2^63) :
@@ -103,6 +104,54 @@ theorem leaf_index_to_mt_index_and_peak_index_panics_iff (i n : Nat) (hn : n < 2
     unfold leaf_index_to_mt_index_and_peak_index_ok
     have : decide (i < n) = false := by simp; omega
     rw [this]; rfl
+
+/-! ## the loop functions against S1
+
+`tree 0 0 63` is the perfect tree with node indices `1 … 2^64 − 1` numbered in post-order; every MMR with fewer
+than `2^63` leaves is the prefix `1 … 2n − popcount n` of it.  `(tree 0 0 63).rootRows` is its table: one `Row` per
+node with height, right-lineage length, parent, sibling, children, leaf index — computed by walking the tree.
+`none` on the left-hand sides below would mean "the Rust loop does not terminate within 65 rounds". -/
+
+/-- every node index `1 … 2^64 − 1` occurs in the table -/
+theorem every_node_index_has_a_row (n : Nat) (h1 : 1 ≤ n) (h2 : n < 2^64) :
+    ∃ r ∈ (tree 0 0 63).rootRows, r.idx = n :=
+  rows_idx_complete 63 0 0 0 0 false 0 1 [] n (by omega) (by
+    have h64 : (2:Nat)^64 = 18446744073709551616 := by decide
+    omega)
+example : (1 : Nat) ≤ 18446744073709551615 ∧ (18446744073709551615 : Nat) < 2^64 := by decide
+
+/-- **`right_lineage_length_and_own_height`** terminates and returns (right-lineage length, height) of the node, for
+    every node index `1 … 2^64 − 1` -/
+theorem right_lineage_length_and_own_height_exact (r : Row) (hr : r ∈ (tree 0 0 63).rootRows) :
+    right_lineage_length_and_own_height r.idx = some (r.rll, r.height) := rll_own_rows r hr
+
+/-- **`parent`** returns the parent, for every node that has one (all but the root `2^64 − 1`) -/
+theorem parent_exact (r : Row) (hr : r ∈ (tree 0 0 63).rootRows) (hp : r.parent ≠ 0) :
+    parent r.idx = some r.parent := parent_rows r hr hp
+
+/-- **`left_sibling` / `right_sibling`** applied to a right / left child with its height return the sibling, without
+    overflow -/
+theorem siblings_exact (r : Row) (hr : r ∈ (tree 0 0 63).rootRows) (hp : r.parent ≠ 0) :
+    (r.rll ≠ 0 → left_sibling r.idx r.height = r.sibling ∧ left_sibling_ok r.idx r.height = true) ∧
+    (r.rll = 0 → right_sibling r.idx r.height = r.sibling ∧ right_sibling_ok r.idx r.height = true) :=
+  sibling_rows r hr hp
+
+/-- **`left_child` / `right_child`** applied to an inner node with its height return the children, without overflow -/
+theorem children_exact (r : Row) (hr : r ∈ (tree 0 0 63).rootRows) (hh : 0 < r.height) :
+    left_child r.idx r.height = r.left ∧ left_child_ok r.idx r.height = true ∧
+    right_child r.idx = r.right ∧ right_child_ok r.idx = true := children_rows r hr hh
+
+/-- **`node_index_to_leaf_index`** returns `Some(leaf index)` exactly for the leaves, `None` for inner nodes -/
+theorem node_index_to_leaf_index_exact (r : Row) (hr : r ∈ (tree 0 0 63).rootRows) :
+    node_index_to_leaf_index r.idx = some r.leaf := n2l_rows r hr
+
+/-- the table of S1 is consistent with the index arithmetic the statement of the property talks about:
+    a right child has its parent at `+1` and its sibling `2^(h+1) − 1` below, a left child has its parent
+    `2^(h+1)` above and its sibling just below the parent; children of an inner node of height `h` are at
+    `−2^h` and `−1` -/
+theorem table_arithmetic (h : Nat) (r : Row) (hr : r ∈ (tree 0 0 h).rootRows) : RowArith r := rootRows_arith h r hr
+example : (6, 1, 1, 7, 3, 4, 5) ∈ (tree 0 0 2).rootRows.map
+    (fun r => (r.idx, r.height, r.rll, r.parent, r.sibling, r.left, r.right)) := by decide
 
 /-! ## tests (kernel-evaluated, bounded): every function against the table of the explicit forest S0 -/
 
